@@ -29,7 +29,7 @@ Proof.
   destruct (nth_error (hand s) w) as [hw|] eqn:Eh; [|discriminate].
   destruct (nth_error (dq s) w) as [qw|] eqn:Eq; [|discriminate].
   destruct (HI t) as [H1 H0].
-  destruct m as [c|c| |v|j| | | |x| | ].
+  destruct m as [c|c| |v|j| | | |x| | |v].
   - (* CreateCF *)
     destruct cw as [|p|p]; try discriminate.
     destruct (is_fresh s c) eqn:Ef; [|discriminate]. injection Hm as <-.
@@ -153,6 +153,13 @@ Proof.
     pose proof (sumf_upd (w_cur t) (cur s) w (Run n) Sched Ec) as Hc. cbn [w_cur] in Hc.
     pose proof (sumf_upd (w_hand t) (hand s) w None (Some n) Eh) as Hh. cbn [w_hand] in Hh.
     assert (places (set_hand (set_cur s w (Run n)) w None) t = places s t) as -> by (occs; lia).
+    apply d_same.
+  - (* PassBase *)
+    destruct cw as [|p|p]; try discriminate. destruct hw as [x|]; try discriminate.
+    destruct (nth_error (dq s) v) as [qv|] eqn:Ev; [|discriminate]. injection Hm as <-.
+    pose proof (sumf_upd (w_hand t) (hand s) w None (Some x) Eh) as Hh. cbn [w_hand] in Hh.
+    pose proof (sumf_upd (w_q t) (dq s) v (x :: qv) qv Ev) as Hq. rewrite w_q_cons in Hq.
+    assert (places (set_dq (set_hand s w None) v (x :: qv)) t = places s t) as -> by (occs; lia).
     apply d_same.
 Qed.
 
